@@ -415,23 +415,53 @@ def checkpoint_body(c):
         return g
 
     g_plain, g_ck = compose(f), compose(ck)
-    sample = {"nargs": nargs, "form": form, "scale": kw_scale, "n": n, "vseed": vseed}
-    bucket = lambda k: f"C17|checkpoint|{k}"
+    closure = c.int(0, 11)
+    closure = closure if closure <= 2 else 0
+    if closure == 1:
+        # the checkpointed function is defined INSIDE the differentiated function and closes over a value traced at the same level (a block
+        # that closes over the parameters being differentiated, applied to an activation that depends on them too)
+        def g_closure(x, wrap):
+            p_ = anp.sin(x) * W[0] + 0.5
+            block = (lambda h: anp.tanh(h * p_) + h)
+            block = autograd.checkpoint(block) if wrap else block
+            return anp.sum(block(x * x + 0.25) * W[0])
+
+        g_plain, g_ck = (lambda x: g_closure(x, False)), (lambda x: g_closure(x, True))
+    elif closure == 2:
+        # the closed-over value is traced at an OUTER level only: the checkpointed block is differentiated (inner level) with respect to an
+        # activation that does not depend on x, and the result is differentiated with respect to x through the closed-over value
+        h0 = values.direction(vseed, (n,), 9) * 0.7
+
+        def g_outer(x, wrap):
+            p_ = anp.sin(x) * W[0] + 0.5
+            block = (lambda h: anp.sum(anp.tanh(h * p_) + h * h * p_))
+            block = autograd.checkpoint(block) if wrap else block
+            return anp.sum(autograd.grad(block)(h0) * W[0]) + block(h0 * 0.5)
+
+        g_plain, g_ck = (lambda x: g_outer(x, False)), (lambda x: g_outer(x, True))
+    sample = {"nargs": nargs, "form": form, "scale": kw_scale, "n": n, "vseed": vseed, "closure_over_traced_value": closure}
+    c.features.update(closure=closure)
+    bucket = lambda k: f"C17|checkpoint|{('', 'closure|', 'outer_closure|')[closure]}{k}"
     u = values.direction(vseed, (n,), 4)
     v = values.direction(vseed, (n,), 5)
     try:
-        if not onp.array_equal(onp.asarray(g_ck(x0)), onp.asarray(g_plain(x0))):
+        if onp.asarray(g_ck(x0)).dtype == object or not onp.array_equal(onp.asarray(g_ck(x0)), onp.asarray(g_plain(x0))):
             return fail("primal_mismatch", "checkpoint changes the value", bucket("value"), sample=sample)
         d1 = lambda fn: autograd.grad(fn)
         d2 = lambda fn: autograd.grad(lambda x: anp.sum(autograd.grad(fn)(x) * u))
         d3 = lambda fn: autograd.grad(lambda x: anp.sum(d2(fn)(x) * v))
+        from autograd.tracer import isbox as _isbox
+
         for order, d in ((1, d1), (2, d2), (3, d3)):
-            a, b = onp.asarray(d(g_ck)(x0)), onp.asarray(d(g_plain)(x0))
+            ra = d(g_ck)(x0)
+            if _isbox(ra) or onp.asarray(ra).dtype == object:
+                return fail("tracer_leak", f"order-{order} reverse derivative through checkpoint contains a tracer", bucket("tracer_leak"), sample=sample)
+            a, b = onp.asarray(ra), onp.asarray(d(g_plain)(x0))
             if a.shape != b.shape or not onp.all(onp.abs(a - b) <= 1e-12 * max(1.0, float(onp.max(onp.abs(b))))):
                 return fail("wrong_value", f"order-{order} reverse derivative through checkpoint differs by {float(onp.max(onp.abs(a - b))):.3e}",
                             bucket(f"order{order}"), sample=sample)
         # direct mixed partial between two checkpointed arguments
-        if nargs >= 2:
+        if nargs >= 2 and not closure:
             a0, b0 = x0, x0 * 0.5 + 0.3
             rest = [1.25] * (nargs - 2)
             mix = lambda fn: autograd.grad(lambda a_: anp.sum(autograd.grad(lambda b_: fn(a_, b_, *rest), 0)(b0) * u))(a0)
